@@ -138,6 +138,7 @@ func (P *Prog) verifyFunc(key string, c11 bool) (res *FuncResult) {
 		}
 	}
 	x.stack = []*ssa.Function{fn}
+	afterEntry := st.clone()
 	exitChecks := func(k, n int, r *retInfo) {
 		if spec == nil {
 			return
@@ -149,6 +150,19 @@ func (P *Prog) verifyFunc(key string, c11 bool) (res *FuncResult) {
 		post := x.newEnv(fr, r.st, nil)
 		post.old = x.entry
 		x.bindResults(post, r.val, resultNames(fn.Signature))
+		// a ghost assigned by ghostexit must not be changed by the body otherwise
+		// (callers replay the assignments on their own pre-state value)
+		seen := map[string]bool{}
+		for _, gs := range spec.GhostExits {
+			if seen[gs.Name] {
+				continue
+			}
+			seen[gs.Name] = true
+			l := x.ghostLeaf(gs.Name)
+			if a, b := x.heapGet(r.st, l), x.heapGet(afterEntry, l); a != b {
+				x.oblige(fr, r.st, "ghostexit-only:"+gs.Name+sfx, "frame", eq("(select "+a+" 1)", "(select "+b+" 1)"), nil)
+			}
+		}
 		for _, gs := range spec.GhostExits {
 			x.setGhost(r.st, gs.Name, x.evalExpr(post, gs.Value))
 		}
